@@ -127,5 +127,8 @@ def run(ctx, rule="CONTROL"):
             "assert_same": ["assert-falls"], "assert_same_raises": [],
             "unsafe_int_cast": ["unsafe-int-cast"], "safe_int_cast": [],
             "Cache.cache_escape": ["cache-escape"], "Cache.cache_frozen": [],
-            "return_before_check": ["return-before-check"], "check_before_return": []}
+            "return_before_check": ["return-before-check"], "check_before_return": [],
+            "aggregate_length": ["aggregate-length"], "each_length": [],
+            "Stat.specified_path": ["specified-path"], "Stat.specified_exact": [],
+            "subtree_root": ["subtree-root"], "subtree_root_compared": []}
     ctx.ob(rule, "py-slips", got == want, fx, "python slip lints on the fixture: %s" % got)
